@@ -2,7 +2,7 @@
 import itertools
 import wire
 from wire import mk_fmt, cells
-from props.common import layouts, chunks_for, reply_fmt, guarded, canon_cells, PALETTE
+from props.common import layouts, chunks_for, reply_fmt, guarded, canon_cells, PALETTE, api_pool
 
 PROP = "C06"
 MODULES = ["Curtsies.Properties.C06"]
@@ -97,12 +97,43 @@ def line(c):
 
 
 LAST_OPERANDS = []
+OBJ = []   # real FmtStr objects built through the public API (cases refer to them by index "obj")
+WIDE_TEXTS = ["", "a", "ab", "Ｅ", "aＥ", "é", "́", "x y", "Ｅé", "a\nb", "ｈｉ", "abc"]
+
+
+def api_built_cases(ctx):
+    """operands built by random public-API programs with observations (str/len/.s/.width) interleaved, over texts
+    with double-width and combining characters: the value a later operation sees may carry memoised fields"""
+    cases = []
+    r = ctx.rng
+    for _ in range(400 if ctx.thorough else 80):
+        pool, _log = api_pool(r, steps=8, texts=WIDE_TEXTS)
+        for f in pool:
+            try:
+                ch = wire.fmt_chunks(f)
+                wire.enc_chunks(ch)
+                f.width   # observe the width first (a cache filled here must not leak into len/indexing)
+            except (wire.Unencodable, ValueError):
+                continue
+            OBJ.append(f)
+            k = len(OBJ) - 1
+            n = sum(len(t) for t, _ in ch)
+            bounds = [None, 0, 1, -1, -2, n - 1, n, n + 1]
+            for a in bounds:
+                for b in bounds:
+                    cases.append(dict(op="slice", f=ch, obj=k, a=a, b=b))
+            for i in (0, -1, n - 1, n, -n, -n - 1):
+                cases.append(dict(op="int", f=ch, obj=k, i=i))
+            cases.append(dict(op="mul", f=ch, obj=k, n=2))
+            cases.append(dict(op="addstr", f=ch, obj=k, s="z"))
+            cases.append(dict(op="raddstr", f=ch, obj=k, s="z"))
+    return cases
 
 
 def run_impl(c):
     """the real operation -> FmtStr (or raises); the operand objects are left in LAST_OPERANDS"""
     op = c["op"]
-    f = mk_fmt(c["f"]) if "f" in c else None
+    f = OBJ[c["obj"]] if "obj" in c else (mk_fmt(c["f"]) if "f" in c else None)
     del LAST_OPERANDS[:]
     if f is not None:
         LAST_OPERANDS.append((f, c["f"]))
@@ -241,6 +272,7 @@ def footprint(c, what):
 
 def check(ctx):
     cases = mk_cases(ctx)
+    cases = cases + api_built_cases(ctx)
     ctx.tie("C06/ops", cases, line, impl, canon_cells, canon_cells)
     ctx.tie("C06/ops-run-level", cases, line, impl)   # un-canonicalised: run structure too (C09/C15/C16 reuse getslice)
     for c in cases:
